@@ -21,7 +21,8 @@ RULE = ("case = callback table + script over the real toplevel instance (default
         "cancel target state, destroy notifications).")
 ASSUMPTIONS = ["no int overflow in time arithmetic (deadlines within +-2^30 us of the clock)",
                "a callback cancels only watches that are still live (not yet invoked with UNBIND, not cancelled), and not itself while it runs",
-               "malloc does not fail", "the instance is not destroyed and tickit_tick is not re-entered from inside a callback"]
+               "malloc does not fail", "tickit_tick is not re-entered from inside a callback; the application holds one reference and may drop it anywhere (script action d): "
+               "the instance then dies when the running tickit_tick returns (fixes/C18-tick-holds-reference.patch) and the script ends"]
 TRUSTED = ["model coq/LoopDefs.v hand-written after src/tickit.c (with fixes/C17-*.patch applied); specification coq/LoopSpec.v "
            "(priority queue keyed by (deadline, registration number), snapshot semantics of an iteration)",
            "heap-level twin coq/LoopHeap.v (nodes at addresses, checked reads, alloc/free; proved fault- and leak-free, C17_heap_safe): "
@@ -52,6 +53,26 @@ def gen(tier, seed, info):
                         continue
                     n += 1
                     yield "cb1=%s %s %s %s %s" % (",".join(sc) or "-", a, b, c, tails[0])
+    # ---- the application drops its reference (tickit_unref) from a timer / deferred callback, from an
+    #      UNBIND notification, or between iterations: the instance must outlive the running tick
+    ndrop = 0
+    for a in ["t0:0:1", "t0:6:1", "l0:1", "l6:1", "t-1000:2:1"]:
+        for b in ["t0:6:2", "t0:0:2", "l2:2", "t1000:6:2", "wi0:1:6:2", "ws10:6:2", "wp6:2"]:
+            for c in ["", "t0:2:2", "l6:2", "t2000:4:2"]:
+                for body in ["d", "d,t0:0:2", "c1,d", "d,c1", "l0:2,d", "d,d"]:
+                    for tail in ["r0 r0", "r0 t0:0:2 r0", "o r0"]:
+                        ndrop += 1
+                        yield "cb1=%s cb2=- %s %s %s %s" % (body, a, b, c, tail)
+    for v in ["t2000:2:1", "l2:1", "wi1:1:2:1", "ws10:2:1"]:
+        for rest in ["t0:6:2 l6:2", "t1000:6:2"]:
+            ndrop += 2
+            yield "ub1=d,l0:2 cb2=- %s %s c0 r0 r0" % (v, rest)          # the drop happens inside an UNBIND notification, between ticks
+            yield "ub1=d cb2=c0 cb3=- %s %s l0:2 t0:6:3 r0 r0" % (v, rest)  # ... inside one, during a tick
+    for pre in ["t0:6:1 l6:1", "t1000:2:1 wi0:1:6:1", ""]:
+        ndrop += 1
+        yield "cb1=- %s d r0 t0:0:1" % pre                                # between iterations
+    info["drop_reference_cases"] = ndrop
+    n += ndrop
     # ---- cancel whose UNBIND notification registers a replacement (re-entrancy of tickit_watch_cancel)
     nub = 0
     repl = ["t-500:0:0", "t0:0:0", "t500:0:0", "t1500:2:0", "t2500:0:0", "t3500:0:0", "l0:0", "l1:0", "l3:0", "wi0:1:4:0",
